@@ -295,6 +295,32 @@ def run(ctx):
     if api:
         ctx.samples.append({"case": api[len(api) // 2][0], "exact": api[len(api) // 2][1]})
     ctx.extra["api_cases"] = len(api)
+    # 6. "equals another number depends only on its normalised decimal expansion ... negative zero equals zero": const through Validate.
+    #    The example (no exponent notation in schema texts) carries const: true, the document the other spelling.  A document that is a float by spelling
+    #    (a dot, no exponent, integral value: the known integer-by-spelling class) is not offered to an integer example; 0e1-style documents are the other known class.
+    exs = ["0", "-0", "0.0", "-0.0", "-0.00", "1", "1.0", "-1", "-1.0", "1.5", "-1.50", "10", "100.00", "-3", "0.5", "-0.5", "12", "120.0"]
+    eq = []
+    for a in exs:
+        a_int = "." not in a
+        docs = {a, "-" + a if not a.startswith("-") else a[1:]}
+        for _ in range(6 if quick else 40):
+            docs.add(respell(ctx.rng, a))
+            docs.add(respell(ctx.rng, ctx.rng.choice(exs)))
+        for d in sorted(docs):
+            if not RFC.match(d) or ZERO_INT_EXP.match(d) or abs(exponent_of(d)) > 40:
+                continue
+            d_float_by_spelling = "." in d and not re.search("[eE]", d) and expansion(value(d))[1] == 0
+            if a_int and (d_float_by_spelling or expansion(value(d))[1] != 0):
+                continue        # kind mismatch (210) decides before const does
+            eq.append((a, d, value(a) == value(d)))
+    outs = vc.impl(["schema"], [json.dumps({"schema": "%s // {const: true}" % a, "ops": [["validate", d]]}) for a, d, _ in eq])
+    for (a, d, same), o in zip(eq, outs):
+        ctx.evaluations += 1
+        r = json.loads(o)[0]
+        if (r == "ok") != same and len(ctx.violations) < 40:
+            ctx.report("Validate(%s) against '%s // {const: true}' says %s; the two numerals are %s" % (d, a, r, "the same number" if same else "different numbers"),
+                       "numeq:%s:%s" % (a, d), {"case": "E %s %s" % (a, d), "implementation": r, "exact": "equal" if same else "different", "found_in": "const"}, case="E %s %s" % (a, d))
+    ctx.extra["const_equality_cases"] = len(eq)
     if not st["proof"] and not ctx.violations:
         ctx.report("proof obligation(s) no longer check: %s" % ", ".join(ctx.proof_broken), "proof-broken",
                    {"broken": ctx.proof_broken, "log": st["logs"].get("make", "")[-3000:]}, no_input=True)
